@@ -440,6 +440,7 @@ package hotline
 //@ func (s *Server) handleNewConnection(ctx context.Context, rwc io.ReadWriteCloser, remoteAddr string) (err error)
 //@   before call (*hotline.ClientConn).Authenticate assert arg1 == callres("(*hotline.Field).DecodeObfuscatedString") || (callres("(*hotline.Field).DecodeObfuscatedString") == "" && arg1 == "guest")
 //@   before call (hotline.ClientManager).Add assert callres("(*hotline.ClientConn).Authenticate")
+//@   before call (*hotline.ClientConn).Authenticate assert callarg("(*hotline.Transaction).GetField#1", 1)[0] == 0 && callarg("(*hotline.Transaction).GetField#1", 1)[1] == 106 && same(arg2, encodedPassword)
 
 // C04: a login succeeds only for an existing account whose stored hash matches the password.
 
@@ -1010,3 +1011,24 @@ package hotline
 //@   ensures r.Type == t && r.ClientID == clientID && same(r.Fields, fields) && r.IsReply == 0 && r.Flags == 0
 //@   ensures bytes(r.ErrorCode) == zeros(4) && r.readOffset == 0
 //@   modifies nothing
+
+// C04 / C15: a password is hashed, and checked, exactly as given: no truncation, no normalisation
+// (the login path hands Authenticate the password field's bytes, Authenticate hands bcrypt its
+// argument, HashAndSalt hashes its argument).
+//@ func HashAndSalt(pwd []byte) (r string)
+//@   property C04 C15
+//@   before call golang.org/x/crypto/bcrypt.GenerateFromPassword assert same(arg0, pwd)
+
+// C05 / C07: the decoded path has exactly as many items as its count field says.
+//@ func (fp *FilePath) Write(b []byte) (n int, err error)
+//@   property C01 C05 C07
+//@   ensures err == nil && len(b) >= 2 ==> len(fp.Items) == old(u16(bytes(b), 0))
+//@   loop 1 invariant 0 <= i && i <= u16(bytes(fp.ItemCount)) && len(fp.Items) == i && bytes(fp.ItemCount) == old(bytes(b)[0:2])
+
+// C10: folder-upload item names are used as sent: no text decoding on the way to the file system
+// (the download side sends the names on disk unencoded, so decoding here would break the round trip).
+//@ func (fu *folderUpload) FormattedPath() (r string)
+//@   property C10
+//@   before any call (*golang.org/x/text/encoding.Decoder).String assert false
+//@   before any call (*golang.org/x/text/encoding.Decoder).Bytes assert false
+//@   before any call (*golang.org/x/text/encoding.Encoder).String assert false
